@@ -418,6 +418,57 @@ fn copy_cases(rep: &mut Rep) {
     bad_events(rep, "arena-drop", "builders");
 }
 
+/// wrong-length copy_slice after a header WITH a destructor was written: the copy is rejected,
+/// nothing leaks, the header is destructed exactly once, the arena does not see the builder
+fn copy_header_cases<H: Elem>(rep: &mut Rep) {
+    let mut arena = Arena::<Rootable![BRoot<'_, H, u32>]>::new(|_| BRoot { swh: Vec::new(), sl: Vec::new(), one: Vec::new(), strs: Vec::new() });
+    for n in 0..=5usize {
+        for m in 0..=6usize {
+            let case = format!("copy_slice<{}>[{}]<-{}", H::NAME, n, m);
+            if !rep.take(&case) {
+                continue;
+            }
+            let src: Vec<u32> = (0..m as u32).collect();
+            arena.mutate_root(|mc, root| {
+                let b = before(mc);
+                let r = catch_unwind(AssertUnwindSafe(|| {
+                    let g = GcSliceWithHeaderBuilder::<H, u32>::new(n).write_header(H::make(HID)).copy_slice(mc, &src);
+                    root.swh.push(g);
+                }));
+                let panicked = r.is_err();
+                drop(r);
+                rep.inc("copy_checks");
+                if panicked != (n != m) {
+                    rep.viol("M-once", &case, "builders", format!("copy of {} elements into a builder of length {}: panicked = {}", m, n, panicked));
+                }
+                if panicked {
+                    after_abandon(rep, &case, mc, &b);
+                    if H::COUNTED {
+                        expect_drops(rep, &case, &[HID], &[]);
+                    }
+                } else {
+                    expect_drops(rep, &case, &[], &[HID]);
+                    if root.swh.last().map(|g| g.header.id() != Some(HID) || &g.slice != src.as_slice()).unwrap_or(true) {
+                        rep.viol("M-once", &case, "builders", "copied contents differ from the source".to_string());
+                    }
+                }
+            });
+            // completed ones are released by the collector: header destructed exactly once then
+            if n == m {
+                arena.mutate_root(|_, root| root.swh.clear());
+                arena.finish_cycle();
+                arena.finish_cycle();
+                if H::COUNTED {
+                    expect_drops(rep, &case, &[HID], &[]);
+                }
+            }
+            rep.case_done(&case, n != m, J::obj().set("n", n).set("m", m));
+        }
+    }
+    drop(arena);
+    bad_events(rep, "arena-drop", "builders");
+}
+
 pub fn run(rep: &mut Rep, _seed: u64, big: bool) {
     // create every statistics key up front: the outstanding-block oracle must not see the
     // harness's own bookkeeping allocations
@@ -433,4 +484,6 @@ pub fn run(rep: &mut Rep, _seed: u64, big: bool) {
     swh_cases::<DTok, Oa>(rep, nmax);
     swh_cases::<Zd, Oa>(rep, nmax);
     copy_cases(rep);
+    copy_header_cases::<DTok>(rep);
+    copy_header_cases::<Oa>(rep);
 }
